@@ -143,12 +143,30 @@ def p1_two(n: int, s1: int, e1: int, a1: int, b1: int, p1: int, i1: bool,
     return dx == -1 and dy == 0
 
 
+def expected_pair(x, y):
+    """documented rule for two candidates x, y (x first): (depth of x, depth of y), -1 = dropped.
+    x, y = (s, e, a, b, prec, inner)"""
+    s1, e1, a1, b1, p1, i1 = x
+    s2, e2, a2, b2, p2, i2 = y
+    if e1 <= s2:
+        return (0, 0)
+    if a1 <= s2 and e2 <= b1:
+        return (0, 1 if i1 else -1)
+    if e1 >= e2 and b1 <= s2:
+        return (0, -1)
+    if p1 >= p2:
+        return (0, -1)
+    return (-1, 0)
+
+
 @lemma('P2.k-candidates', 'C16', quick=[{'k': 3, 'ord': o} for o in range(4)], thorough=[{'k': 3, 'ord': o} for o in range(4)],
-       timeout=400, per_path=30,
+       timeout=600, per_path=30,
        stubs=['SpanStr', 'stub token classes / match objects'],
        covers=['span_tokenizer.py:eval_tokens', 'span_tokenizer.py:eval_new_child', 'span_tokenizer.py:relation',
                'span_tokenizer.py:make_tokens'],
-       note='three candidates, all integer coordinates; partitioned by how the second candidate relates to the first')
+       note='three candidates, all integer coordinates; partitioned by how the second candidate relates to the first; invariants (order, disjointness, containment, tiling) always; '
+            'plus the pairwise rule where it is not shadowed: two candidates that both lie in the parse group of a first, inner-parsing one are resolved among themselves exactly like two top-level candidates, '
+            'and a first candidate that precedes both others leaves them to the two-candidate rule')
 def p2_three(n: int, s1: int, e1: int, a1: int, b1: int, p1: int, i1: bool,
              s2: int, e2: int, a2: int, b2: int, p2: int, i2: bool,
              s3: int, e3: int, a3: int, b3: int, p3: int, i3: bool) -> bool:
@@ -160,8 +178,31 @@ def p2_three(n: int, s1: int, e1: int, a1: int, b1: int, p1: int, i1: bool,
     pre: p2_part(s1, e1, a1, b1, s2, e2)
     post: _
     """
-    out = resolve(n, [(s1, e1, a1, b1, p1, i1), (s2, e2, a2, b2, p2, i2), (s3, e3, a3, b3, p3, i3)])
-    return check_invariants(out, 0, n)
+    c1, c2, c3 = (s1, e1, a1, b1, p1, i1), (s2, e2, a2, b2, p2, i2), (s3, e3, a3, b3, p3, i3)
+    out = resolve(n, [c1, c2, c3])
+    if not check_invariants(out, 0, n):
+        return False
+    d = (present(out, 0), present(out, 1), present(out, 2))
+    want = p2_expected(c1, c2, c3)
+    return want is None or d == want
+
+
+def p2_expected(c1, c2, c3):
+    """expected nesting depths (-1 = dropped) in the two configurations where the pairwise rule
+    is not shadowed by the third candidate; None = only the invariants are claimed"""
+    s1, e1, a1, b1, p1, i1 = c1
+    s2, e2, a2, b2, p2, i2 = c2
+    s3, e3, a3, b3, p3, i3 = c3
+    if excl_trailing_delimiter(s2, e2, a2, b2, p2, s3, e3, p3):
+        return None
+    if e1 <= s2:
+        # the first candidate precedes both others: they are a plain two-candidate problem
+        return (0,) + expected_pair(c2, c3)
+    if i1 and a1 <= s2 and e2 <= b1 and a1 <= s3 and e3 <= b1:
+        # both inside the first one's parse group: siblings under it, same rule one level down
+        w = expected_pair(c2, c3)
+        return (0,) + tuple(-1 if v == -1 else v + 1 for v in w)
+    return None
 
 
 def p2_part(s1, e1, a1, b1, s2, e2):
@@ -378,7 +419,10 @@ def replay_p1(n, s1, e1, a1, b1, p1, i1, s2, e2, a2, b2, p2, i2):
 def replay_p2(n, *c):
     cands = [tuple(c[i:i + 6]) for i in range(0, 18, 6)]
     text, got, where = _replay_abstract(n, cands)
-    return got != text, 'text=%r recovered=%r tokens=%r' % (text, got, where)
+    d = tuple(where.get('K%d' % i, -1) for i in range(3))
+    want = p2_expected(*cands)
+    fails = got != text or (want is not None and d != want)
+    return fails, 'text=%r recovered=%r nesting depths=%r expected %r' % (text, got, d, want)
 
 
 p1_two.__lemma__.replay = replay_p1
